@@ -710,7 +710,7 @@ func (e *Engine) execTypeAssert(st *State, fr *Frame, x *ssa.TypeAssert, pos str
 	if _, isIface := at.Underlying().(*types.Interface); isIface {
 		if _, isTP := at.(*types.TypeParam); !isTP {
 			// assertion to an interface type: does the dynamic type have the methods?
-			has := e.ctx.App("implements_"+typeKey(at), SBool, iv.L[0])
+			has := e.implementsTerm(at, iv.L[0])
 			ok := And(Not(Eq(iv.L[0], IntLit(0))), has)
 			if x.CommaOk {
 				res := Val{T: rt, L: []Term{Ite(ok, iv.L[0], IntLit(0)), iv.L[1], ok}}
@@ -765,6 +765,14 @@ func (e *Engine) invoke(st *State, fr *Frame, recv Val, m *types.Func, args []Va
 		h(e, st, fr, recv, m, args, rt, pos, k)
 		return
 	}
+	if e.pureMethod(m.Name()) && len(args) == 0 && len(recv.L) == 2 {
+		// `opt puremethods M`: a niladic method of an unknown dynamic type is ASSUMED to be a pure, total function of
+		// its receiver (dynamic type tag and payload)
+		e.trustedUsed["assumed: method "+m.Name()+"() of an unknown dynamic type is a pure total function of its receiver"] = true
+		e.obligationPanic(st, "nil-iface", pos, Not(Eq(recv.L[0], IntLit(0))))
+		k(st, fr, e.dynCall(m.Name(), recv, rt))
+		return
+	}
 	panic(unsupported("interface method call %s.%s without a contract", recv.T, m.Name()))
 }
 
@@ -779,4 +787,33 @@ func (e *Engine) ownedExprs(exprs []string, se *SpecEnv) []Val {
 		out = append(out, e.evalSpec(ex, se))
 	}
 	return out
+}
+
+func (e *Engine) pureMethod(name string) bool {
+	if e.rootC == nil {
+		return false
+	}
+	for _, l := range e.rootC.Extra["puremethods"] {
+		for _, n := range strings.Fields(l) {
+			if n == name {
+				return true
+			}
+		}
+	}
+	return false
+}
+
+// dynCall: the result of the pure niladic method `name` on the interface value recv.
+func (e *Engine) dynCall(name string, recv Val, rt types.Type) Val {
+	ls := e.lay.Leaves(rt)
+	res := Val{T: rt, L: make([]Term, len(ls))}
+	for i, lf := range ls {
+		res.L[i] = e.ctx.App(fmt.Sprintf("dyn_%s_%d_%s", name, i, sanitize(string(lf.Sort))), lf.Sort, recv.L[0], recv.L[1])
+	}
+	return res
+}
+
+// implementsSym: the predicate "the dynamic type has the methods of interface type at".
+func (e *Engine) implementsTerm(at types.Type, tag Term) Term {
+	return e.ctx.App("implements_"+typeKey(at), SBool, tag)
 }
